@@ -187,9 +187,9 @@ def check_attribute_gate(ctx):
     raises = [n for n in g.stmt_nodes() if n.kind == 'stmt' and isinstance(n.ast, ast.Raise) and 'XSDWrongAttribute' in unparse(n.ast)]
     ok = False
     for r in raises:
-        for t, lab in dom.guards_of(g, r):
-            if t.kind == 'test' and lab == 'T' and isinstance(t.ast, ast.Compare) and isinstance(t.ast.ops[0], ast.NotIn) and unparse(t.ast.left) == name_p:
-                right = t.ast.comparators[0]
+        for t, e_, _txt, lab in dom.guard_views(g, r):
+            if lab == 'T' and isinstance(e_, ast.Compare) and isinstance(e_.ops[0], ast.NotIn) and unparse(e_.left) == name_p:
+                right = e_.comparators[0]
                 src = unparse(right)
                 if isinstance(right, ast.Name):
                     ds = dom.assignments_to(g, right.id)
@@ -251,9 +251,9 @@ def required_attributes(ctx):
             txt = unparse(t.ast)
             if txt == 'self.TYPE.get_xsd_tree().is_complex_type' and lab == 'T':
                 continue
-            if isinstance(t.ast, ast.Compare) and isinstance(t.ast.ops[0], ast.NotIn) and unparse(t.ast.comparators[0]) in ATTR_OBJ and \
-                    unparse(t.ast.left).endswith('.name') and lab == 'T':
-                have_missing = True
+            if isinstance(t.ast, ast.Compare) and isinstance(t.ast.ops[0], ast.In) and unparse(t.ast.comparators[0]) in ATTR_OBJ and \
+                    unparse(t.ast.left).endswith('.name') and lab == 'F':
+                have_missing = True          # canonical form of `name not in self.attributes` [T]
                 continue
             if txt.endswith('.is_required') and lab == 'T':
                 continue
@@ -315,7 +315,7 @@ def routing(ctx, el_classes):
         a = c.args[0] if c.args else None
         if isinstance(a, ast.Dict) and len(a.keys) == 1 and unparse(a.keys[0]) == key_p and unparse(a.values[0]) == val_p:
             guards = [(unparse(t.ast), lab) for t, lab in dom.guards_of(g, n) if t.kind == 'test']
-            ok = all(lab == 'F' for _, lab in guards) and len(guards) == 2
+            ok = all(lab == 'F' for _, lab in guards) and 2 <= len(guards) <= 3
             detail = str(guards)
     res.check(ok, 'R-TAB.routing', f.fq, "the fall-through branch of __setattr__ is self._set_attributes({key: value})", key='R-TAB.routing|setattr-shape')
     xe = sm.get_class('XMLElement', T.M_XMLELEMENT)
